@@ -196,6 +196,15 @@ def pairs():
     out.append(('nest/vec-of-sets', [('Product', [('SetExtension', [a, b]), c]), ('Product', [('SetExtension', [b, a]), c])]))
     out.append(('nest/stmt-of-sets', [('Inheritance', ('IntersectionExtension', [a, b, c]), a), ('Inheritance', ('IntersectionExtension', [c, b, a]), a)]))
     out.append(('nest/deep', [('SetExtension', [('Disjunction', [('EquivalenceConcurrent', a, b), ('Negation', c)])]), ('SetExtension', [('Disjunction', [('Negation', c), ('EquivalenceConcurrent', b, a)])])]))
+    # elements that differ only in ways a coarse hash cannot see (atom kind, a negation wrapper, ordered-compound kind)
+    for k in ('SetExtension', 'Conjunction', 'IntersectionIntension'):
+        out.append(('set/%s/atom-kind' % k, [(k, [('Word', N(0)), b]), (k, [('Operator', N(0)), b])]))
+        out.append(('set/%s/neg-wrapper' % k, [(k, [a, b]), (k, [a, ('Negation', b)])]))
+        out.append(('set/%s/compound-kind' % k, [(k, [('Product', [a, b]), c]), (k, [('ConjunctionSequential', [a, b]), c])]))
+        out.append(('set/%s/stmt-vs-diff' % k, [(k, [('Inheritance', a, b), c]), (k, [('DifferenceExtension', a, b), c])]))
+    out.append(('nest/set-of-sets-sibling', [('SetExtension', [('SetExtension', [a, c]), ('SetExtension', [b])]), ('SetExtension', [('SetExtension', [c, a]), ('SetExtension', [b])])]))
+    out.append(('nest/conj-of-conj-sibling', [('Disjunction', [('Conjunction', [a, c]), ('Conjunction', [b, ('Word', 'm2')])]), ('Disjunction', [('Conjunction', [b, ('Word', 'm2')]), ('Conjunction', [c, a])])]))
+    out.append(('image/nested-sets', [('ImageExtension', 1, [a, ('Disjunction', [('Conjunction', [a, c]), ('Conjunction', [b])])]), ('ImageExtension', 1, [a, ('Disjunction', [('Conjunction', [b]), ('Conjunction', [c, a])])])]))
     triples = [('trans/sets', [('SetExtension', [a, b]), ('SetExtension', [b, c]), ('SetExtension', [c, a])]),
                ('trans/symm', [('Similarity', a, b), ('Similarity', b, c), ('Similarity', c, a)]),
                ('trans/symm2', [('Equivalence', a, b), ('Equivalence', b, a), ('Equivalence', a, c)]),
